@@ -40,7 +40,7 @@ def check(run):
         for cap in ([100] if quick else [100, 101, 130]):
             for occ in sorted({0, 1, 2, cap - 1, cap, cap + 1, rng.randint(3, cap - 2), rng.randint(3, cap - 2)}):
                 for pre_takes in (0, 1, 2):
-                    ops = asyncgen.fill_prefix(cap, occ) + ['T'] * pre_takes
+                    ops = asyncgen.fill_prefix(cap, occ, mixed=(pre_takes == 1 or rng.random() < 0.3)) + ['T'] * pre_takes
                     if rng.random() < 0.5:
                         ops.append('w1.0')
                     cases.append('%d %s %s X' % (cap, pol, ' '.join(ops)))
@@ -48,7 +48,7 @@ def check(run):
     def nontrivial(c, obs):
         return len(c.split()) > 5
     common.simple_family_check(run, 'c04', 'c05/stop-at-occupancy', cases, nontrivial,
-        'Stop called at buffer occupancies {0,1,2,cap-1,cap,cap+1,random} with the worker idle or parked mid-append, three policies; observable: everything accepted is '
+        'Stop called at buffer occupancies {0,1,2,cap-1,cap,cap+1,random} with the worker idle or parked mid-append, three policies, the buffered items all events or a mix of events, raw writes and zero-length (nil / empty) raw writes; observable: everything accepted is '
         'delivered in order when Stop returns, Stop returns within the deadline', keep_empty=False, timeout=3000)
     # 2. every logger kind through Refresh + Destroy, sinks read immediately, descriptors
     kinds = ['syncfile', 'asyncfile', 'fifofile', 'console', 'file', 'rolling', 'rollingsep', 'rollingasync', 'rollingsepasync', 'syncrollingapp']
@@ -77,7 +77,7 @@ def check(run):
             if not bad:
                 run.discharged += 1
             run.stream('c05/logger-kinds', len(kcases), len(kcases), False, 'Refresh-built loggers of every kind (sync/async with file appender, console, file, rolling sync/async with/without .wf, rolling appender), '
-                       'with/without logger layout; events + raw writes, then Destroy under a watchdog; sinks read immediately; descriptors into the log directory counted before/after')
+                       'with/without logger layout; events + raw writes (with nil and empty raw writes in between), then Destroy under a watchdog; sinks read immediately; descriptors into the log directory counted before/after')
             run.coverage['samples'].append({'stream': 'c05/logger-kinds', 'case': kcases[0], 'observation': io[0][:200]})
     finally:
         shutil.rmtree(tmp, ignore_errors=True)
